@@ -843,6 +843,79 @@ def run_derived_rename_accessors(chk, spec):
 			chk.fail("a rename renames the table it was asked on", f"frame/rename-lost/{spec['deriv']}/{how}", f"{spec!r}: the renamed table advertises {[n for n in dir(src) if n in ('price', 'cost', 'qty', 'n')]!r}")
 
 
+def run_caller_arguments(chk, spec):
+	"""containers the CALLER passes in - the apply dict and the over / *_over lists of aggregate and window, key and direction lists of sort_by and joins, the name lists
+	of rename_columns, index lists and value lists of assignments - are the caller's: the call leaves them exactly as they were (same items, same objects), so
+	they can be passed again to another table"""
+	import copy as _copy, warnings
+	with warnings.catch_warnings():
+		warnings.simplefilter("ignore")
+		t = Table({"g": ["a", "b", "a"], "v": [1, 2, 3], "w": [4, 5, 6]})
+		u = Table({"g": ["x", "x", "y"], "v": [10, 20, 30], "w": [7, 8, 9]})
+		r = Table({"k": ["a", "b"], "z": [1, 2]})
+		vec = Vector([10, 20, 30, 40])
+		what = spec["what"]
+		args = {
+			"apply-dict": lambda: {"n": ("v", len), "m": ("w", max)}, "over-list": lambda: ["g"], "sum-list": lambda: ["v", "w"], "sort-keys": lambda: ["g", "v"], "sort-reverse": lambda: [True, False],
+			"join-left-keys": lambda: ["g"], "join-right-keys": lambda: ["k"], "rename-old": lambda: ["v", "w"], "rename-new": lambda: ["vv", "ww"], "index-list-negative": lambda: [0, -1], "index-list": lambda: [1, 2],
+			"mask-list": lambda: [True, False, True, False], "value-list": lambda: [7, 8], "row-index-list": lambda: [0, -1], "column-name-list": lambda: ["v", "w"], "row-values": lambda: ["q", 0, 0],
+		}[what]()
+		saved = _copy.copy(args)
+		saved_items = list(args.items()) if isinstance(args, dict) else list(args)
+		calls = {
+			"apply-dict": [lambda: t.aggregate(over="g", apply=args), lambda: u.window(over="g", apply=args)], "over-list": [lambda: t.aggregate(over=args, sum_over="v"), lambda: u.window(over=args, sum_over="v")],
+			"sum-list": [lambda: t.aggregate(over="g", sum_over=args), lambda: u.window(over="g", max_over=args)], "sort-keys": [lambda: t.sort_by(args), lambda: u.sort_by(args, reverse=[False, True])],
+			"sort-reverse": [lambda: t.sort_by(["g", "v"], reverse=args)], "join-left-keys": [lambda: t.join(r, args, ["k"], expect="many_to_one"), lambda: t.inner_join(r, args, "k")],
+			"join-right-keys": [lambda: t.full_join(r, ["g"], args), lambda: t.inner_join(r, "g", args)], "rename-old": [lambda: t.rename_columns(args, ["vv", "ww"])], "rename-new": [lambda: t.rename_columns(["v", "w"], args)],
+			"index-list-negative": [lambda: vec.__setitem__(args, [1, 2]), lambda: vec.__getitem__(args), lambda: Vector([1, 2, 3]).__setitem__(args, 0)], "index-list": [lambda: vec.__setitem__(args, [1, 2]), lambda: vec[args]],
+			"mask-list": [lambda: vec.__setitem__(args, 0), lambda: vec[args]], "value-list": [lambda: vec.__setitem__([0, 1], args), lambda: vec.__setitem__(slice(0, 2), args), lambda: t.__setitem__((slice(0, 2), "v"), args)],
+			"row-index-list": [lambda: t.__setitem__((args, "v"), [5, 6]), lambda: t[args]], "column-name-list": [lambda: t.__setitem__((0, args), [5, 6]), lambda: t.aggregate(over="g", count_over=args)], "row-values": [lambda: t.__setitem__(0, args), lambda: t << args],
+		}[what]
+		for k, f in enumerate(calls):
+			o = call(f)
+			chk.judged("pair", ("caller-arguments", what, k, o.ok))
+			now_items = list(args.items()) if isinstance(args, dict) else list(args)
+			same = len(now_items) == len(saved_items) and all((a is b) or (isinstance(a, tuple) and isinstance(b, tuple) and len(a) == len(b) and all(x is y for x, y in zip(a, b))) or (isinstance(a, (int, str, bool)) and type(a) is type(b) and a == b)
+				for a, b in zip(now_items, saved_items))
+			if same and isinstance(args, dict):
+				same = all(ka is kb or ka == kb for (ka, _), (kb, _) in zip(now_items, saved_items)) and all(len(va) == len(vb) and all(x is y for x, y in zip(va, vb)) for (_, va), (_, vb) in zip(now_items, saved_items))
+			if not same:
+				chk.fail("operations never change their operands - nor the containers the caller passed them", f"frame/caller-argument-rewritten/{what}", f"{spec!r}: call #{k + 1} ({'ok' if o.ok else repr(o)}) left the caller's {type(args).__name__} as {short(args, 160)}; it was {short(saved, 160)}")
+				return
+
+
+def run_replaced_column_then_named_again(chk, spec):
+	"""an operation names a column, the column is then REPLACED as a whole (by its plain or its indexed accessor, by item assignment), and the operation names it again:
+	it reads the column the table holds now - the handle the program kept of the replaced column is a vector of its own, writing to it changes nothing of the table"""
+	import warnings
+	with warnings.catch_warnings():
+		warnings.simplefilter("ignore")
+		def build(total):
+			return Table({"total": list(total), "g": ["a", "b", "a", "b"], "id": [1, 2, 3, 4]})
+		t = build([3, 1, 2, 0])
+		r = Table({"k": [0, 1, 2, 3, 9], "z": ["p", "q", "r", "s", "t"]})
+		ops = {"sort_by": lambda x: x.sort_by("total"), "aggregate": lambda x: x.aggregate(over="total", count_over="id"), "window": lambda x: x.window(over="g", sum_over="total"), "join": lambda x: x.inner_join(r, "total", "k"),
+			"sort_by-list": lambda x: x.sort_by(["g", "total"])}
+		op = ops[spec["op"]]
+		old_handle = t["total"]
+		first = call(op, t)
+		new = [0, 9, 1, 2]
+		w = call({"attr": lambda: setattr(t, "total", list(new)), "indexed-accessor": lambda: setattr(t, "total__0", list(new)), "indexed-accessor-vector": lambda: setattr(t, "total__0", Vector(list(new), name="total")),
+			"item-column": lambda: t.__setitem__((slice(None), "total"), list(new))}[spec["replace"]])
+		if not w.ok:
+			chk.skip("column-replacement-refused")
+			return
+		if spec["write_old_handle"] and t.cols()[0] is not old_handle:
+			call(old_handle.__setitem__, 0, 77)
+		cur = list(t.cols()[0]._underlying)
+		second = call(op, t)
+		ref = call(op, build(cur))
+	chk.judged("pair", ("replaced-column-then-named-again", spec["op"], spec["replace"], spec["write_old_handle"]))
+	if second.ok != ref.ok or (second.ok and [list(c._underlying) for c in second.value.cols()] != [list(c._underlying) for c in ref.value.cols()]):
+		chk.fail("a write through a handle that is no longer the table's column changes nothing the table shows", f"frame/replaced-column-still-read/{spec['op']}/{spec['replace']}",
+			f"{spec!r}: table column now {cur!r}: {spec['op']} gives {short([list(c._underlying) for c in second.value.cols()] if second.ok else second, 200)}; a table built from the current cells gives {short([list(c._underlying) for c in ref.value.cols()] if ref.ok else ref, 200)}")
+
+
 def run_history(chk, spec):
 	m = pool.Machine(chk, spec["seed"], spec["nsteps"], spec.get("profile", "mixed"))
 	try:
@@ -851,7 +924,7 @@ def run_history(chk, spec):
 		chk.counters["history_steps"] += len(m.trace)
 
 
-RUNNERS = {"derived_rename_accessors": run_derived_rename_accessors, "returned_container": run_returned_container, "unnamed_keys": run_unnamed_keys, "handle_survives": run_handle_survives, "pure_cells": run_pure_cells, "refusal": run_refusal, "pair": run_pair, "history": run_history, "recompute": recompute.runner("C01")}
+RUNNERS = {"caller_arguments": run_caller_arguments, "replaced_column_then_named_again": run_replaced_column_then_named_again, "derived_rename_accessors": run_derived_rename_accessors, "returned_container": run_returned_container, "unnamed_keys": run_unnamed_keys, "handle_survives": run_handle_survives, "pure_cells": run_pure_cells, "refusal": run_refusal, "pair": run_pair, "history": run_history, "recompute": recompute.runner("C01")}
 
 def setup(chk):
 	pool.CENSUS.install()
@@ -877,6 +950,12 @@ def run(chk):
 			for side in ("derived", "source"):
 				for touch_first in (False, True):
 					chk.case("derived_rename_accessors", {"deriv": deriv, "how": how, "rename_side": side, "touch_first": touch_first}, "derived-rename-accessors")
+	for what in ("apply-dict", "over-list", "sum-list", "sort-keys", "sort-reverse", "join-left-keys", "join-right-keys", "rename-old", "rename-new", "index-list-negative", "index-list", "mask-list", "value-list", "row-index-list", "column-name-list", "row-values"):
+		chk.case("caller_arguments", {"what": what}, "caller-arguments")
+	for op in ("sort_by", "aggregate", "window", "join", "sort_by-list"):
+		for replace in ("attr", "indexed-accessor", "indexed-accessor-vector", "item-column"):
+			for write_old in (False, True):
+				chk.case("replaced_column_then_named_again", {"op": op, "replace": replace, "write_old_handle": write_old}, "replaced-column-then-named-again")
 	for reader in READERS:
 		for renamed in (False, True):
 			chk.case("returned_container", {"reader": reader, "renamed": renamed}, "returned-container")
